@@ -207,6 +207,33 @@ def run(shard):
             vals += [marshal.loads(marshal.dumps(v)) for v in vals[:5]]
             constant_pool_check(vals, "random%d" % rnd)
 
+    # ---- hand-constructed CodeData (W5 graphs): JSON load, deepcopy and re-decode routes --------------------------
+    if shard.get("families"):
+        import gen_data
+        for n in range(6 if shard.get("tier") == "quick" else 60):
+            r5 = H.rng_for(shard.get("seed", 0), "c08-w5", shard.get("shard", 0), n)
+            try:
+                hcd, desc = gen_data.build(r5, "small", True)
+            except Exception as e:
+                H.count("skipped:w5_build:" + type(e).__name__)
+                continue
+            state["case"] = {"k": "w5", "id": "c08-w5:%s:%d" % (shard.get("shard", 0), n), "desc": desc}
+            routes = [("hand-built", hcd)]
+            try:
+                routes.append(("json", CodeData.from_json_data(json.loads(json.dumps(hcd.to_json_data())))))
+            except Exception as e:
+                H.count("skipped:w5_json:" + type(e).__name__)
+            routes.append(("deepcopy", copy.deepcopy(hcd)))
+            for i in range(len(routes)):
+                for j in range(i, len(routes)):
+                    check_pair(routes[i][1], routes[j][1], "w5 routes %s vs %s" % (routes[i][0], routes[j][0]), expect_equal=True, encode=(i != j))
+            try:
+                back = CodeData.from_code(hcd.to_code())
+                check_pair(back.normalize(), CodeData.from_code(back.to_code()).normalize(), "w5 re-decoded normal forms", expect_equal=True, encode=True)
+            except Exception as e:
+                H.count("skipped:w5_encode:" + type(e).__name__)
+            frozen_walk(hcd, "w5", [25])
+
     # ---- CodeData routes ---------------------------------------------------------------------------------
     bucket = []
     for case, id_, code, text in corpus.iter_cases(shard):
